@@ -63,37 +63,35 @@ Proof.
     + apply (IH lines l line (col + 1) need rest offs Hl Hlo ltac:(lia) Hn Hd' Hi).
 Qed.
 
-Lemma npr_loop_inv lo : forall ls lines k prev col minCol need rest offs o,
+Lemma npr_loop_inv lo : forall ls lines k prev col minCol need rest offs brk o,
   skipn k lines = ls ->
   lo <= Z.of_nat k + 1 ->
   inv lo lines offs ->
-  (offs <> [] -> lo <= Z.of_nat k /\ exists pl, (1 <= k)%nat /\ nth_error lines (k - 1) = Some pl /\ prev = slen pl) ->
-  npr_loop ls prev (Z.of_nat k + 1) col minCol need rest offs = Ok o ->
+  (brk = true -> lo <= Z.of_nat k /\ exists pl, (1 <= k)%nat /\ nth_error lines (k - 1) = Some pl /\ prev = slen pl) ->
+  npr_loop ls prev (Z.of_nat k + 1) col minCol need rest offs brk = Ok o ->
   inv lo lines o.
 Proof.
-  induction ls as [|line more IH]; intros lines k prev col minCol need rest offs o Hsk Hlo Hi Hprev Hrun.
+  induction ls as [|line more IH]; intros lines k prev col minCol need rest offs brk o Hsk Hlo Hi Hprev Hrun.
   - cbn in Hrun. inversion Hrun; subst. exact Hi.
   - destruct (skipn_cons_nth _ _ _ _ Hsk) as [Hnth Hsk'].
     cbn [npr_loop] in Hrun.
-    set (offs1 := match offs with [] => offs | _ => append_position offs (Z.of_nat k + 1 - 1) (prev + 1) end) in *.
-    assert (Hi1 : inv lo lines offs1 /\ (offs <> [] -> offs1 <> [])).
-    { unfold offs1. destruct offs as [|p r]; [split; [exact Hi|auto]|].
-      destruct (Hprev ltac:(discriminate)) as [Hlk [pl [Hk [Hpl Hpv]]]].
-      split; [|intros _; apply append_position_nonempty].
+    set (offs1 := if brk then append_position offs (Z.of_nat k + 1 - 1) (prev + 1) else offs) in *.
+    assert (Hi1 : inv lo lines offs1).
+    { unfold offs1. destruct brk; [|exact Hi].
+      destruct (Hprev eq_refl) as [Hlk [pl [Hk [Hpl Hpv]]]].
       eapply inv_append; [exact Hi|lia|].
       subst prev. apply char_at_line_break; [lia|].
       replace (Z.to_nat (Z.of_nat k + 1 - 1 - 1)) with (k - 1)%nat by lia. exact Hpl. }
-    destruct Hi1 as [Hi1 Hne1].
     assert (Hnth' : nth_error lines (Z.to_nat (Z.of_nat k + 1 - 1)) = Some line)
       by (replace (Z.to_nat (Z.of_nat k + 1 - 1)) with k by lia; exact Hnth).
     assert (Hnext : forall n r o1, inv lo lines o1 ->
               match advance n r with
               | None => Ok o1
-              | Some (n', r') => npr_loop more (slen line) (Z.of_nat k + 1 + 1) minCol minCol n' r' o1
+              | Some (n', r') => npr_loop more (slen line) (Z.of_nat k + 1 + 1) minCol minCol n' r' o1 (is_fold_char n)
               end = Ok o -> inv lo lines o).
     { intros n r o1 Hio Hr. destruct (advance n r) as [[n' r']|].
       - replace (Z.of_nat k + 1 + 1) with (Z.of_nat (S k) + 1) in Hr by lia.
-        eapply (IH lines (S k) (slen line) minCol minCol n' r' o1 o Hsk' ltac:(lia) Hio); [|exact Hr].
+        eapply (IH lines (S k) (slen line) minCol minCol n' r' o1 (is_fold_char n) o Hsk' ltac:(lia) Hio); [|exact Hr].
         intros _. split; [lia|]. exists line. repeat split; [lia|].
         replace (S k - 1)%nat with k by lia. exact Hnth.
       - inversion Hr; subst. exact Hio. }
@@ -106,6 +104,24 @@ Proof.
       destruct (scan_line (sdrop (Z.to_nat (col2 - 1)) line) (Z.of_nat k + 1) col2 need rest offs1) as [o1|n1 r1 o1].
       * inversion Hrun; subst. apply Hscan.
       * apply (Hnext n1 r1 o1 (proj1 Hscan) Hrun).
+Qed.
+
+Lemma inv_nil lo lines : inv lo lines [].
+Proof. split; [constructor|]. split; [constructor|]. exists EmptyString. reflexivity. Qed.
+
+Lemma npr_entry_inv lines n minCol need rest o :
+  npr_entry lines n minCol need rest = Ok o -> inv (sn_line n) lines o.
+Proof.
+  unfold npr_entry. intros H. destruct (sn_block n).
+  - destruct (sn_line n + 1 <=? 0) eqn:El; [discriminate|]. apply Z.leb_gt in El.
+    replace (sn_line n + 1) with (Z.of_nat (Z.to_nat (sn_line n)) + 1) in H by lia.
+    eapply (npr_loop_inv (sn_line n) _ lines (Z.to_nat (sn_line n)) 0 minCol minCol need rest [] false o eq_refl);
+      [lia|apply inv_nil|discriminate|exact H].
+  - destruct (sn_line n <=? 0) eqn:El; [discriminate|]. apply Z.leb_gt in El.
+    cbv zeta in H.
+    replace (sn_line n) with (Z.of_nat (Z.to_nat (sn_line n - 1)) + 1) in H at 2 by lia.
+    eapply (npr_loop_inv (sn_line n) _ lines (Z.to_nat (sn_line n - 1)) 0 _ minCol need rest [] false o eq_refl);
+      [lia|apply inv_nil|discriminate|exact H].
 Qed.
 
 (** Unconditional facts about every successful call. *)
@@ -123,15 +139,8 @@ Proof.
     - intros Hc. unfold read_back. rewrite expand_cons, expand_range_single. cbn [expand flat_map app map collect].
       destruct (char_at lines (sn_line n, sn_col n)) as [c|]; [|contradiction]. eexists. reflexivity. }
   destruct (sn_value n) as [|need rest]; [inversion H; subst; exact Hfb|].
-  destruct (sn_line n <=? 0) eqn:El; [discriminate|]. apply Z.leb_gt in El.
-  destruct (npr_loop (skipn (Z.to_nat (sn_line n - 1)) lines) 0 (sn_line n) (sn_col n) minCol need rest []) as [o|w] eqn:E;
-    [|destruct w; discriminate].
-  assert (Hi : inv (sn_line n) lines o).
-  { eapply (npr_loop_inv (sn_line n) _ lines (Z.to_nat (sn_line n - 1)) 0 (sn_col n) minCol need rest [] o eq_refl).
-    - lia.
-    - split; [constructor|]. split; [constructor|]. exists EmptyString. reflexivity.
-    - intros Hc. contradiction.
-    - replace (Z.of_nat (Z.to_nat (sn_line n - 1)) + 1) with (sn_line n) by lia. exact E. }
+  destruct (npr_entry lines n minCol need rest) as [o|w] eqn:E; [|destruct w; discriminate].
+  pose proof (npr_entry_inv _ _ _ _ _ _ E) as Hi.
   destruct o as [|p o']; [inversion H; subst; exact Hfb|].
   inversion H; subst. destruct Hi as [H1 [H2 H3]]. repeat split; try assumption; try discriminate.
   intros _. exact H3.
